@@ -366,9 +366,6 @@ def run(repo, rep, tier):
     rep.rule("R-C12-3", "dispatcher: specific-before-general order, ValueError otherwise, and each branch's reader renames that branch's "
                         "identifying names")
     rep.rule("R-C12-4", "(shared with C17) converters do not scale the caller's dataset in place")
-    converters(repo, rep)
-    jacobian(repo, rep)
-    dispatcher(repo, rep)
     from ..effects import Engine
     eng = Engine(repo)
     eng.solve()
@@ -380,6 +377,15 @@ def run(repo, rep, tier):
             rep.fail("R-C12-4", e.file, e.line, fi.qualname, e.construct, f"{e.what}: the caller's dataset is modified, a second conversion of the same object converts twice", list(e.via))
         else:
             rep.ok("R-C12-4", f"{fi.file}:{fi.node.lineno} {fi.short}", "no write effect on the input dataset", "effect summary")
+    try:
+        converters(repo, rep)
+    except AnalysisError as e_:
+        # an in-place scaling already reported above is also what defeats the typing of that converter: keep the violation, note the rest
+        if not rep.has_new_findings():
+            raise
+        rep.note(f"typing of the converters stopped after the violation above: {e_}")
+    jacobian(repo, rep)
+    dispatcher(repo, rep)
     rep.trust("native-convention table NATIVE (format documentation / reader docstrings); Python ast; units algebra of sa/units.py")
     rep.assume("WWM SPDIR spans one circle [0, 2pi): a positive unit conversion keeps it in [0, 360)")
     rep.note("not decided: equality of integrated variance native vs converted (numeric); lon/lat time-dependence handling at run time")
